@@ -146,7 +146,7 @@ def render(d):
     """-> (text, expected view, info)"""
     ch = Chooser(d["stream"])
     info = {"bus_net": 0, "conn": 0, "unconn": 0, "model_used_twice": 0, "continuation": 0, "comments": 0,
-            "undeclared_bb": 0}
+            "undeclared_bb": 0, "bb_before_top": 0}
     lines = []
 
     def comment():
@@ -174,9 +174,15 @@ def render(d):
         return out
 
     comment()
-    for bb in d["bbs"]:
-        if bb["declared"] and bb["before"] and False:
-            lines.extend(bb_block(bb))  # (the first model is the top: black boxes go after it)
+    # a declared black box may precede the model that instantiates it (the reader re-elects the top
+    # when a later model instantiates the current one); an unused one must follow, or it stays the top
+    used_idx = {s["model"] for s in d["stmts"] if s["k"] in ("subckt", "gate")}
+    early = set()
+    for i, bb in enumerate(d["bbs"]):
+        if bb["declared"] and bb.get("before") and i in used_idx:
+            lines.extend(bb_block(bb))
+            early.add(i)
+            info["bb_before_top"] = 1
     lines.append(".model %s" % d["top"])
     lines.append(ports_line(".inputs", d["inputs"]))
     lines.append(ports_line(".outputs", d["outputs"]))
@@ -269,9 +275,10 @@ def render(d):
         exp["insts"][iname] = {"ref": ref, "type": typ, "data": data}
     lines.append(".end")
     lines.append("")
-    for bb in d["bbs"]:
+    for i, bb in enumerate(d["bbs"]):
         if bb["declared"]:
-            lines.extend(bb_block(bb))
+            if i not in early:
+                lines.extend(bb_block(bb))
             exp["models"][bb["name"]] = {"lib": "hdi_primitives", "leaf": True, "ports": {
                 **{n: {"dir": "IN", "w": w} for n, w in bb["inputs"]},
                 **{n: {"dir": "OUT", "w": w} for n, w in bb["outputs"]}}}
